@@ -85,7 +85,13 @@ def gen_entry(draw):
         inner = ['slotsc', [['b', ['i', draw(st.integers(0, 9))]]]]
         return {'kind': kind, 'recipe': {'target': [draw(st.sampled_from(['slotsc', 'slots'])), [['a', inner], ['c', ['s', 'x']]]],
                                          'path': draw(st.sampled_from(['a.b', 'a', 'c', 'a.zz']))}}
-    if kind == 'c03':
+    if kind == 'c03' and draw(st.sampled_from(range(5))) == 0:
+        # keyword arguments starred out of a mapping owned by the target, followed by further keyword sources
+        r = {'target': ['dict', [['opts', ['dict', [['a', ['i', 1]], ['b', ['i', 2]]]]], ['n', ['i', draw(st.integers(0, 9))]]]],
+             'spec': ['invoke', 'collect', [['*', None, ['path', 'opts']],
+                                            draw(st.sampled_from([['S', [], [['p', ['path', 'n']]]], ['C', [], [['q', ['i', 7]]]],
+                                                                  ['*', None, ['val', ['dict', [['z', ['i', 0]]]]]]]))]]}
+    elif kind == 'c03':
         r = c03.gen(draw)
     elif kind == 'c01':
         r = c01.gen(draw)
